@@ -449,7 +449,7 @@ impl GroupConfig {
                 Overreplicated(self.rf_over.unwrap_or(1))
             },
             root_paths: if self.isolate {
-                self.input_paths().collect()
+                self.isolated_roots()
             } else {
                 vec![]
             },
@@ -523,6 +523,22 @@ impl GroupConfig {
                     .map(move |p| base_dir.resolve(p)),
             )
         }
+    }
+
+    /// Returns the input paths in the same normalized form as the paths of the files
+    /// reported by the directory walk (no `.`, `..` or symbolic links to directories),
+    /// so they can be used as prefixes of the reported paths.
+    pub fn isolated_roots(&self) -> Vec<Path> {
+        self.input_paths()
+            .map(|p| {
+                if p.to_path_buf().is_file() {
+                    if let (Some(parent), Some(name)) = (p.parent(), p.file_name()) {
+                        return Arc::new(parent.canonicalize()).join(Path::from(name));
+                    }
+                }
+                p.canonicalize()
+            })
+            .collect()
     }
 
     fn build_transform(&self, command: &str) -> io::Result<Transform> {
